@@ -104,7 +104,7 @@ fn revoke_contract<const TABLE: u8, const L: usize, const NEIGH: bool>()
     core::mem::forget(cache);
 }
 
-//# id=K.cache.revoke.any_entity_event.L0 props=C06,C01 strength=bounded shape="list of length L=0 under the key, all ids symbolic; neighbour key and the 6 other lists hold one entry of the same id" tier=quick fns=ReactCache::revoke_any_entity_event_reactor
+//# id=K.cache.revoke.any_entity_event.L0 props=C06,C01 strength=bounded shape="list of length L=0 under the key, all ids symbolic; neighbour key and the 6 other lists hold one entry of the same id" tier=thorough fns=ReactCache::revoke_any_entity_event_reactor
 #[kani::proof] #[kani::unwind(6)] fn k_cache_revoke_any_entity_event_l0() { revoke_contract::<0, 0, true>(); }
 //# id=K.cache.revoke.any_entity_event.L1 props=C06,C01 strength=bounded shape="list of length L=1 under the key, all ids symbolic; neighbour key and the 6 other lists hold one entry of the same id" tier=quick fns=ReactCache::revoke_any_entity_event_reactor
 #[kani::proof] #[kani::unwind(6)] fn k_cache_revoke_any_entity_event_l1() { revoke_contract::<0, 1, true>(); }
@@ -112,7 +112,7 @@ fn revoke_contract<const TABLE: u8, const L: usize, const NEIGH: bool>()
 #[kani::proof] #[kani::unwind(6)] fn k_cache_revoke_any_entity_event_l2() { revoke_contract::<0, 2, false>(); }
 //# id=K.cache.revoke.any_entity_event.L3 props=C06,C01 strength=bounded shape="list of length L=3 under the key, all ids symbolic; neighbour key and the 6 other lists hold one entry of the same id" tier=thorough fns=ReactCache::revoke_any_entity_event_reactor
 #[kani::proof] #[kani::unwind(6)] fn k_cache_revoke_any_entity_event_l3() { revoke_contract::<0, 3, false>(); }
-//# id=K.cache.revoke.resource.L0 props=C06,C01 strength=bounded shape="list of length L=0 under the key, all ids symbolic; neighbour key and the 6 other lists hold one entry of the same id" tier=quick fns=ReactCache::revoke_resource_mutation_reactor
+//# id=K.cache.revoke.resource.L0 props=C06,C01 strength=bounded shape="list of length L=0 under the key, all ids symbolic; neighbour key and the 6 other lists hold one entry of the same id" tier=thorough fns=ReactCache::revoke_resource_mutation_reactor
 #[kani::proof] #[kani::unwind(6)] fn k_cache_revoke_resource_l0() { revoke_contract::<1, 0, true>(); }
 //# id=K.cache.revoke.resource.L1 props=C06,C01 strength=bounded shape="list of length L=1 under the key, all ids symbolic; neighbour key and the 6 other lists hold one entry of the same id" tier=quick fns=ReactCache::revoke_resource_mutation_reactor
 #[kani::proof] #[kani::unwind(6)] fn k_cache_revoke_resource_l1() { revoke_contract::<1, 1, true>(); }
@@ -120,15 +120,15 @@ fn revoke_contract<const TABLE: u8, const L: usize, const NEIGH: bool>()
 #[kani::proof] #[kani::unwind(6)] fn k_cache_revoke_resource_l2() { revoke_contract::<1, 2, false>(); }
 //# id=K.cache.revoke.resource.L3 props=C06,C01 strength=bounded shape="list of length L=3 under the key, all ids symbolic; neighbour key and the 6 other lists hold one entry of the same id" tier=thorough fns=ReactCache::revoke_resource_mutation_reactor
 #[kani::proof] #[kani::unwind(6)] fn k_cache_revoke_resource_l3() { revoke_contract::<1, 3, false>(); }
-//# id=K.cache.revoke.broadcast.L0 props=C06,C01 strength=bounded shape="list of length L=0 under the key, all ids symbolic; neighbour key and the 6 other lists hold one entry of the same id" tier=quick fns=ReactCache::revoke_broadcast_reactor
+//# id=K.cache.revoke.broadcast.L0 props=C06,C01 strength=bounded shape="list of length L=0 under the key, all ids symbolic; neighbour key and the 6 other lists hold one entry of the same id" tier=thorough fns=ReactCache::revoke_broadcast_reactor
 #[kani::proof] #[kani::unwind(6)] fn k_cache_revoke_broadcast_l0() { revoke_contract::<2, 0, true>(); }
 //# id=K.cache.revoke.broadcast.L1 props=C06,C01 strength=bounded shape="list of length L=1 under the key, all ids symbolic; neighbour key and the 6 other lists hold one entry of the same id" tier=quick fns=ReactCache::revoke_broadcast_reactor
 #[kani::proof] #[kani::unwind(6)] fn k_cache_revoke_broadcast_l1() { revoke_contract::<2, 1, true>(); }
 //# id=K.cache.revoke.broadcast.L2 props=C06,C01 strength=bounded shape="list of length L=2 under the key, all ids symbolic; neighbour key and the 6 other lists hold one entry of the same id" tier=quick fns=ReactCache::revoke_broadcast_reactor
 #[kani::proof] #[kani::unwind(6)] fn k_cache_revoke_broadcast_l2() { revoke_contract::<2, 2, false>(); }
-//# id=K.cache.revoke.broadcast.L3 props=C06,C01 strength=bounded shape="list of length L=3 under the key, all ids symbolic; neighbour key and the 6 other lists hold one entry of the same id" tier=quick fns=ReactCache::revoke_broadcast_reactor
+//# id=K.cache.revoke.broadcast.L3 props=C06,C01 strength=bounded shape="list of length L=3 under the key, all ids symbolic; neighbour key and the 6 other lists hold one entry of the same id" tier=thorough fns=ReactCache::revoke_broadcast_reactor
 #[kani::proof] #[kani::unwind(6)] fn k_cache_revoke_broadcast_l3() { revoke_contract::<2, 3, false>(); }
-//# id=K.cache.revoke.despawn.L0 props=C06,C01 strength=bounded shape="list of length L=0 under the key, all ids symbolic; neighbour key and the 6 other lists hold one entry of the same id" tier=quick fns=ReactCache::revoke_despawn_reactor
+//# id=K.cache.revoke.despawn.L0 props=C06,C01 strength=bounded shape="list of length L=0 under the key, all ids symbolic; neighbour key and the 6 other lists hold one entry of the same id" tier=thorough fns=ReactCache::revoke_despawn_reactor
 #[kani::proof] #[kani::unwind(6)] fn k_cache_revoke_despawn_l0() { revoke_contract::<3, 0, true>(); }
 //# id=K.cache.revoke.despawn.L1 props=C06,C01 strength=bounded shape="list of length L=1 under the key, all ids symbolic; neighbour key and the 6 other lists hold one entry of the same id" tier=quick fns=ReactCache::revoke_despawn_reactor
 #[kani::proof] #[kani::unwind(6)] fn k_cache_revoke_despawn_l1() { revoke_contract::<3, 1, true>(); }
@@ -136,15 +136,15 @@ fn revoke_contract<const TABLE: u8, const L: usize, const NEIGH: bool>()
 #[kani::proof] #[kani::unwind(6)] fn k_cache_revoke_despawn_l2() { revoke_contract::<3, 2, true>(); }
 //# id=K.cache.revoke.despawn.L3 props=C06,C01 strength=bounded shape="list of length L=3 under the key, all ids symbolic; neighbour key and the 6 other lists hold one entry of the same id" tier=thorough fns=ReactCache::revoke_despawn_reactor
 #[kani::proof] #[kani::unwind(6)] fn k_cache_revoke_despawn_l3() { revoke_contract::<3, 3, true>(); }
-//# id=K.cache.revoke.comp_insertion.L0 props=C06,C01 strength=bounded shape="list of length L=0 under the key, all ids symbolic; neighbour key and the 6 other lists hold one entry of the same id" tier=quick fns=ReactCache::revoke_component_reactor
+//# id=K.cache.revoke.comp_insertion.L0 props=C06,C01 strength=bounded shape="list of length L=0 under the key, all ids symbolic; neighbour key and the 6 other lists hold one entry of the same id" tier=thorough fns=ReactCache::revoke_component_reactor
 #[kani::proof] #[kani::unwind(6)] fn k_cache_revoke_comp_insertion_l0() { revoke_contract::<4, 0, true>(); }
 //# id=K.cache.revoke.comp_insertion.L1 props=C06,C01 strength=bounded shape="list of length L=1 under the key, all ids symbolic; neighbour key and the 6 other lists hold one entry of the same id" tier=quick fns=ReactCache::revoke_component_reactor
 #[kani::proof] #[kani::unwind(6)] fn k_cache_revoke_comp_insertion_l1() { revoke_contract::<4, 1, true>(); }
 //# id=K.cache.revoke.comp_insertion.L2 props=C06,C01 strength=bounded shape="list of length L=2 under the key, all ids symbolic; neighbour key and the 6 other lists hold one entry of the same id" tier=quick fns=ReactCache::revoke_component_reactor
 #[kani::proof] #[kani::unwind(6)] fn k_cache_revoke_comp_insertion_l2() { revoke_contract::<4, 2, true>(); }
-//# id=K.cache.revoke.comp_insertion.L3 props=C06,C01 strength=bounded shape="list of length L=3 under the key, all ids symbolic; neighbour key and the 6 other lists hold one entry of the same id" tier=quick fns=ReactCache::revoke_component_reactor
+//# id=K.cache.revoke.comp_insertion.L3 props=C06,C01 strength=bounded shape="list of length L=3 under the key, all ids symbolic; neighbour key and the 6 other lists hold one entry of the same id" tier=thorough fns=ReactCache::revoke_component_reactor
 #[kani::proof] #[kani::unwind(6)] fn k_cache_revoke_comp_insertion_l3() { revoke_contract::<4, 3, true>(); }
-//# id=K.cache.revoke.comp_mutation.L0 props=C06,C01 strength=bounded shape="list of length L=0 under the key, all ids symbolic; neighbour key and the 6 other lists hold one entry of the same id" tier=quick fns=ReactCache::revoke_component_reactor
+//# id=K.cache.revoke.comp_mutation.L0 props=C06,C01 strength=bounded shape="list of length L=0 under the key, all ids symbolic; neighbour key and the 6 other lists hold one entry of the same id" tier=thorough fns=ReactCache::revoke_component_reactor
 #[kani::proof] #[kani::unwind(6)] fn k_cache_revoke_comp_mutation_l0() { revoke_contract::<5, 0, true>(); }
 //# id=K.cache.revoke.comp_mutation.L1 props=C06,C01 strength=bounded shape="list of length L=1 under the key, all ids symbolic; neighbour key and the 6 other lists hold one entry of the same id" tier=quick fns=ReactCache::revoke_component_reactor
 #[kani::proof] #[kani::unwind(6)] fn k_cache_revoke_comp_mutation_l1() { revoke_contract::<5, 1, true>(); }
@@ -152,7 +152,7 @@ fn revoke_contract<const TABLE: u8, const L: usize, const NEIGH: bool>()
 #[kani::proof] #[kani::unwind(6)] fn k_cache_revoke_comp_mutation_l2() { revoke_contract::<5, 2, true>(); }
 //# id=K.cache.revoke.comp_mutation.L3 props=C06,C01 strength=bounded shape="list of length L=3 under the key, all ids symbolic; neighbour key and the 6 other lists hold one entry of the same id" tier=thorough fns=ReactCache::revoke_component_reactor
 #[kani::proof] #[kani::unwind(6)] fn k_cache_revoke_comp_mutation_l3() { revoke_contract::<5, 3, true>(); }
-//# id=K.cache.revoke.comp_removal.L0 props=C06,C01 strength=bounded shape="list of length L=0 under the key, all ids symbolic; neighbour key and the 6 other lists hold one entry of the same id" tier=quick fns=ReactCache::revoke_component_reactor
+//# id=K.cache.revoke.comp_removal.L0 props=C06,C01 strength=bounded shape="list of length L=0 under the key, all ids symbolic; neighbour key and the 6 other lists hold one entry of the same id" tier=thorough fns=ReactCache::revoke_component_reactor
 #[kani::proof] #[kani::unwind(6)] fn k_cache_revoke_comp_removal_l0() { revoke_contract::<6, 0, true>(); }
 //# id=K.cache.revoke.comp_removal.L1 props=C06,C01 strength=bounded shape="list of length L=1 under the key, all ids symbolic; neighbour key and the 6 other lists hold one entry of the same id" tier=quick fns=ReactCache::revoke_component_reactor
 #[kani::proof] #[kani::unwind(6)] fn k_cache_revoke_comp_removal_l1() { revoke_contract::<6, 1, true>(); }
@@ -230,7 +230,7 @@ fn entity_event_contract<const S: usize, const W: usize, const HAS_ER: bool>() {
     core::mem::forget(er); core::mem::forget(queue); core::mem::forget(cache); core::mem::forget(world);
 }
 //# id=K.dispatch.entity_event.s0w0 props=C01,C05 strength=complete shape="target without EntityReactors, no type-wide listener" tier=quick fns=ReactCache::schedule_entity_event_reaction
-#[kani::proof] #[kani::unwind(8)] fn k_dispatch_entity_event_s0w0() { entity_event_contract::<0, 0, false>(); }
+#[kani::proof] #[kani::unwind(8)] fn k_dispatch_entity_event_s0w0_noer() { entity_event_contract::<0, 0, false>(); }
 //# id=K.dispatch.entity_event.s0w0_er props=C01,C05 strength=complete shape="target with EntityReactors holding only other event types, no type-wide listener" tier=quick fns=ReactCache::schedule_entity_event_reaction,EntityReactors::count,EntityReactors::iter_rtype
 #[kani::proof] #[kani::unwind(8)] fn k_dispatch_entity_event_s0w0_er() { entity_event_contract::<0, 0, true>(); }
 //# id=K.dispatch.entity_event.s1w1 props=C01,C05 strength=bounded shape="1 scoped + 1 type-wide listener (ids symbolic), plus a scoped entry of another type" tier=quick fns=ReactCache::schedule_entity_event_reaction,EntityReactors::count,EntityReactors::iter_rtype
